@@ -158,7 +158,7 @@ type stubPC struct {
 	closes int
 }
 
-func (c *stubPC) ReadFrom([]byte) (int, net.Addr, error)   { return 0, nil, net.ErrClosed }
+func (c *stubPC) ReadFrom([]byte) (int, net.Addr, error)    { return 0, nil, net.ErrClosed }
 func (c *stubPC) WriteTo(p []byte, _ net.Addr) (int, error) { return len(p), nil }
 func (c *stubPC) Close() error                              { c.closes++; return nil }
 func (c *stubPC) LocalAddr() net.Addr                       { return c.addr }
